@@ -1,4 +1,5 @@
 """C17 - DNS cookies follow the RFC 7873 client state machine (Cookie facet)."""
+import mutators
 import simlib
 
 KEEP = {"init", "call", "adv", "sk", "env", "cbb", "crash"}
@@ -15,4 +16,4 @@ def run(ctx):
     else:
         gens = [{"module": "Gen_C17.tla", "cfg": "Gen_C17_thorough.cfg", "name": "bfs", "timeout": 1500},
                 {"module": "Gen_C17.tla", "cfg": "Gen_C17_sim.cfg", "name": "sim", "simulate": 3000, "depth": 24}]
-    simlib.engine_check(ctx, gens, FACETS, labels=("c17.",))
+    simlib.engine_check(ctx, gens, FACETS, labels=("c17.",), selftests=mutators.COOKIE)
